@@ -5,6 +5,11 @@ implementation's own output and knows nothing about the Lean model.
 
 Op lines (see the header of harness/ipc/ipc_adm.c):
   srv T UMASK | par N | cli I uid=U gid=G ids=res|eff rc=R auth=U:G:MODE|- fail=K:ENAME|- msgs=M
+      [peer=raw hs=pre|win|post frag=N] [plant=K:NAME:f666|f644|link]
+peer=raw: the connecting process is not libqb's client (plain socket, no SO_PASSCRED of its own, handshake
+written by hand at a generated moment relative to the server's accept()).  plant=: a second process with
+the client's ids plants a file / a symlink to a root-owned victim under a predictable ring or control
+file name right after the K-th file-system call of the connection.
 """
 import re
 
@@ -36,6 +41,24 @@ def fail_points(transport, refused):
     return [k for k in range(1, 10) if k != 2]
 
 
+NAMES = {"shm": ["request-header", "request-data", "response-header", "response-data", "event-header", "event-data"],
+         "sock": ["control"]}
+SETUP_CALLS = {"shm": 34, "sock": 9}
+
+
+def gen_extras(rng, transport):
+    """(raw-peer keys, plant key): '' when not used"""
+    raw = plant = ""
+    if rng.random() < 0.3:
+        raw = " peer=raw hs=%s frag=%d" % (rng.choice(["pre", "win", "win", "post"]), rng.choice([1, 1, 2, 3]))
+    if rng.random() < 0.25:
+        r = rng.random()
+        # 3 = right after the directory has been handed to the peer, 4 = after the transport's chown of it
+        k = 3 if r < 0.5 else 4 if r < 0.7 else rng.randint(1, SETUP_CALLS[transport])
+        plant = " plant=%d:%s:%s" % (k, rng.choice(NAMES[transport]), rng.choice(["f666", "f644", "link", "link"]))
+    return raw, plant
+
+
 def gen_cli(rng, idx, transport, narrow=False):
     uid = rng.choice(UIDS)
     gid = rng.choice(GIDS)
@@ -52,7 +75,11 @@ def gen_cli(rng, idx, transport, narrow=False):
     else:
         fail = "-"
     msgs = rng.choice([0, 1, 1, 2, 3])
-    return "cli %d uid=%d gid=%d ids=%s rc=%d auth=%s fail=%s msgs=%d" % (idx, uid, gid, ids, rc, auth, fail, msgs)
+    raw, plant = gen_extras(rng, transport)
+    if raw:
+        msgs = 0        # a raw peer has no API handle to send requests with
+    return "cli %d uid=%d gid=%d ids=%s rc=%d auth=%s fail=%s msgs=%d%s%s" % (
+        idx, uid, gid, ids, rc, auth, fail, msgs, raw, plant)
 
 
 def gen_case(rng, max_clients=4, par_prob=0.35, narrow=False):
@@ -91,6 +118,12 @@ def parse_cli(op):
         d["failv"] = (int(k), e)
     else:
         d["failv"] = None
+    d["raw"] = d.get("peer") == "raw"
+    if d.get("plant", "-") != "-":
+        k, name, kind = d["plant"].split(":")
+        d["plantv"] = (int(k), name, kind)
+    else:
+        d["plantv"] = None
     return d
 
 
@@ -141,13 +174,22 @@ FS_RE = re.compile(r"^fs (\S+) (\S+)(.*?) -> (\S+) \| (.*)$")
 
 def parse_block(lines):
     b = {"fs": [], "accept": [], "authset": [], "connect": None, "snap": None, "msgs": None, "late": None,
-         "residue": None, "ids": None, "order": []}
+         "residue": None, "ids": None, "order": [], "plant": None, "planted": None, "victim": None}
     for l in lines:
         m = FS_RE.match(l)
         if m:
             b["fs"].append({"call": m.group(1), "path": m.group(2), "args": m.group(3).strip(), "res": m.group(4),
                             "snap": parse_snap(m.group(5)), "pos": len(b["order"])})
             b["order"].append("fs")
+        elif l.startswith("plant "):
+            m = re.match(r"^plant (\S+) (\S+) -> (\S+) \| (.*)$", l)
+            b["plant"] = {"name": m.group(1), "kind": m.group(2), "res": m.group(3), "snap": parse_snap(m.group(4)),
+                          "nfs": len(b["fs"])}
+            b["order"].append("plant")
+        elif l.startswith("planted "):
+            b["planted"] = l.split()[1]
+        elif l.startswith("victim "):
+            b["victim"] = tuple(l[7:].split(" -> "))
         elif l.startswith("accept "):
             b["accept"].append(tuple(int(x) for x in l.split()[1:3]))
             b["order"].append("accept")
@@ -212,8 +254,53 @@ def check_client(t, um, c, b):
         return [(None, ident + ": the child could not take the generated ids (harness problem): %s" % (b["ids"],))]
     refused = c["rc"] != 0
     inj = injected_call(b, c)
+    residue = b["residue"]
     mode = c["authv"][2] if c["authv"] else 0o600
     ow = (c["authv"][0], c["authv"][1]) if c["authv"] else None
+    # 0. a hostile peer's planted object: the server must never use an object it did not create
+    pl = b["plant"] if (b["plant"] and b["plant"]["res"] == "ok") else None
+    px = pl["name"] if pl else None
+    pent = pl["snap"].get(px) if pl else None
+
+    adopted = [None]    # index of the fs record at which the server took the planted object for its own
+
+    def foreign(name, ent, k=None):
+        """the peer's own object, exactly as the peer made it and not (yet) used by the server: not a file of
+        the connection"""
+        return (pl is not None and name == px and ent == pent
+                and (adopted[0] is None or (k is not None and k < adopted[0])))
+
+    def own(snap, k=None):
+        return {n: e for n, e in snap.items() if not foreign(n, e, k)}
+    if c["plantv"] and b["plant"] is None and b["fs"] and len(b["fs"]) >= c["plantv"][0]:
+        bad.append((None, ident + ": harness problem: the planter did not act after call %d" % c["plantv"][0]))
+    if pl:
+        if pent is None:
+            bad.append((None, ident + ": harness problem: planted object %s not in the snapshot" % px))
+        for k, f in enumerate(b["fs"]):
+            if k < pl["nfs"]:
+                continue
+            if f["call"] in ("open", "openat") and f["path"] == px and f["args"].startswith("creat") and f["res"] == "ok":
+                adopted[0] = k
+                bad.append((None, "%s: the server's `open %s %s` succeeded on the object the peer had planted there "
+                            "(%s): it uses an object it did not create" % (ident, px, f["args"], pl["kind"])))
+                break
+        later = [("%s %s" % (f["call"], f["path"]), f["snap"]) for f in b["fs"][pl["nfs"]:]]
+        later += [("connected", b["snap"]), ("gone", b["residue"])]
+        for what, snap in later:
+            if snap is not None and snap.get(px) != pent:
+                bad.append((None, "%s: the peer's planted %s (%s) was %s by the server: %s after `%s`" % (
+                    ident, px, pent, "removed" if px not in snap else "changed", snap.get(px), what)))
+                break
+        if b["planted"] != "same":
+            bad.append((None, "%s: the planted object %s is %s at the end" % (ident, px, b["planted"])))
+    if b["victim"] is not None and b["victim"][0] != b["victim"][1]:
+        bad.append((None, "%s: the root-owned file OUTSIDE the connection directory was modified: %s -> %s" % (
+            ident, b["victim"][0], b["victim"][1])))
+    # a directory the server cannot remove because the peer's own (untouched) object sits in it is the peer's
+    # litter, not a file or directory of the connection
+    if pl and set(b["residue"]) <= {".", px} and foreign(px, b["residue"].get(px)):
+        residue = {}
     # 1. credentials handed to accept = the kernel-reported ones of the connecting process
     for (u, g) in b["accept"]:
         if (u, g) != (ru, rg):
@@ -221,6 +308,8 @@ def check_client(t, um, c, b):
                 ident, u, g, ru, rg, eu, eg)))
         if c["ids"] == "res" and (u, g) != (c["uid"], c["gid"]):
             bad.append((None, "%s: accept got %d:%d, connecting process runs as %d:%d" % (ident, u, g, c["uid"], c["gid"])))
+    if not b["accept"] and not inj:
+        bad.append((None, ident + ": accept callback never ran (connect %s)" % b["connect"]))
     if len(b["accept"]) > 1:
         bad.append((None, ident + ": accept called %d times for one connection" % len(b["accept"])))
     if ow is None and b["accept"]:
@@ -232,22 +321,20 @@ def check_client(t, um, c, b):
         if (b["msgs"] and b["msgs"][1]) or b["late"]:
             bad.append((None, ident + ": msg_process ran for a refused client"))
         for f in b["fs"]:
-            if any(e[0] != "d" for n, e in f["snap"].items()):
+            if any(e[0] != "d" for n, e in own(f["snap"]).items()):
                 bad.append((None, ident + ": a channel file exists for a refused client after `%s %s`" % (f["call"], f["path"])))
                 break
-        if b["residue"] and not is_cleanup(inj):
-            bad.append((None, ident + ": refused, but left behind: %s" % sorted(b["residue"])))
-    if refused and not b["accept"] and not inj:
-        bad.append((None, ident + ": accept callback never ran"))
+        if residue and not is_cleanup(inj):
+            bad.append((None, ident + ": refused, but left behind: %s" % sorted(residue)))
     # 3. never more permissive than the chosen mode, at any observed moment
     moments = [(("%s %s" % (f["call"], f["path"])), f["snap"]) for f in b["fs"]]
     moments += [("connected", b["snap"] or {}), ("gone", b["residue"])]
     chmodded = set()
-    for what, snap in moments:
+    for k, (what, snap) in enumerate(moments):
         w = what.split()
         if w[0] == "chmod":
             chmodded.add(w[1])
-        for name, (ty, m, u, g) in snap.items():
+        for name, (ty, m, u, g) in own(snap, k).items():
             if name == ".":
                 if ty != "d" or (m & ~0o770):
                     bad.append((None, "%s: directory is %s%04o after `%s` (more than 0770)" % (ident, ty, m, what)))
@@ -264,7 +351,7 @@ def check_client(t, um, c, b):
             if f["call"] in ("rmdir",):
                 break
             setup.append(f)
-        final = b["snap"] if b["connect"] == 0 and t == "shm" else (setup[-1]["snap"] if setup else {})
+        final = own(b["snap"] if b["connect"] == 0 and t == "shm" else (setup[-1]["snap"] if setup else {}))
         for name, (ty, m, u, g) in final.items():
             if (u, g) != ow:
                 bad.append((None, "%s: %s is owned by %d:%d, authorised owner is %d:%d" % (ident, name, u, g, ow[0], ow[1])))
@@ -275,14 +362,14 @@ def check_client(t, um, c, b):
     if b["connect"] != 0:
         if (b["msgs"] and b["msgs"][1]) or b["late"]:
             bad.append((None, ident + ": msg_process ran although connect failed with %d" % b["connect"]))
-        if b["residue"] and not is_cleanup(inj) and not refused:
-            kf = KF_DIRCHMOD if (inj and inj["call"] == "chmod" and inj["path"] == "." and set(b["residue"]) == {"."}) else None
-            bad.append((kf, "%s: connect failed with %d but left behind: %s" % (ident, b["connect"], sorted(b["residue"]))))
+        if residue and not is_cleanup(inj) and not refused:
+            kf = KF_DIRCHMOD if (inj and inj["call"] == "chmod" and inj["path"] == "." and set(residue) == {"."}) else None
+            bad.append((kf, "%s: connect failed with %d but left behind: %s" % (ident, b["connect"], sorted(residue))))
     else:
         if b["msgs"] != (c["msgs"], c["msgs"]) or b["late"] != c["msgs"]:
             bad.append((None, "%s: %d requests, answered/processed %s late=%s" % (ident, c["msgs"], b["msgs"], b["late"])))
-        if b["residue"] and not is_cleanup(inj):
-            bad.append((None, "%s: disconnected, but left behind: %s" % (ident, sorted(b["residue"]))))
+        if residue and not is_cleanup(inj):
+            bad.append((None, "%s: disconnected, but left behind: %s" % (ident, sorted(residue))))
     return bad
 
 
@@ -330,7 +417,7 @@ def compare(ops, il, ml):
         i, m = ib.get(c["idx"]), mb.get(c["idx"])
         if i is None or m is None:
             return "client %s: block missing (impl %s, model %s)" % (c["idx"], i is not None, m is not None)
-        seq = lambda ls: [l for l in ls if l.startswith(("fs ", "accept ", "authset "))]
+        seq = lambda ls: [l for l in ls if l.startswith(("fs ", "accept ", "authset ", "plant "))]
         si, sm = seq(i), seq(m)
         # set-up length according to the model: everything before its `connect` line
         n_setup = len(seq(m[:next((k for k, l in enumerate(m) if l.startswith("connect ")), len(m))]))
@@ -360,6 +447,9 @@ def compare(ops, il, ml):
                 return "client %s: ledger when connected impl=%s model=%s" % (c["idx"], pi["snap"], pm["snap"])
         if pi["residue"] != pm["residue"]:
             return "client %s: residue impl=%s model=%s" % (c["idx"], pi["residue"], pm["residue"])
+        if (pi["planted"], pi["victim"]) != (pm["planted"], pm["victim"]):
+            return "client %s: planted object / victim file impl=%s model=%s" % (
+                c["idx"], (pi["planted"], pi["victim"]), (pm["planted"], pm["victim"]))
     return None
 
 
@@ -396,6 +486,17 @@ def cover(ops, out):
             tags.add("sock-auth-other-owner")
         if c["ids"] == "eff":
             tags.add("real-ne-effective")
+        if c["raw"] and b["accept"]:
+            tags.add("raw-peer-" + c.get("hs", "pre"))
+            if int(c.get("frag", "1")) > 1:
+                tags.add("raw-peer-fragments")
+        if b["plant"]:
+            if b["plant"]["res"] == "ok":
+                tags.add("plant-ok-" + ("link" if b["plant"]["kind"] == "link" else "file"))
+                if b["connect"] == -17:
+                    tags.add("planted-object-refused-" + t)
+            else:
+                tags.add("plant-" + b["plant"]["res"])
         if c["uid"] != 0:
             tags.add("non-root-peer")
         if um not in (0o22,):
